@@ -1,20 +1,17 @@
 /-
-  Props/C17Batt — clause 3 of C17: `batt_life()` puts the battery's voltage and resistance back.
+  Props/C17Batt — clause 3 of C17: `batt_life()` puts the battery's voltage and resistance back on return and also
+  when a callback or the solver raises.
 
-  Subject: `Batt.battLife` (Model/Batt.lean).  The Python restores `vo, rs` *after* the depletion loop and has no
-  `try/finally`, so the clause holds for runs that return and for exceptions raised before the loop, and fails for an
-  exception from a deplete call or from the solver (design finding F22):
+  Subject: `Batt.battLife` (Model/Batt.lean), which follows the repaired code (/repo 366dc68: the restore of `vo, rs`
+  sits in a `finally` around the depletion loop).
 
-    batt_restores_partial            the call returns (no exception)            → vo, rs as before
-    batt_restores_before_loop        unknown name / not a Source / raising probe → vo, rs as before, no deplete call
-    batt_restores_full               the clause as stated (a `def … : Prop`)
-    batt_restores_full_fails         ¬ batt_restores_full: KeyError from the 3rd deplete call leaves the 2nd result
-    batt_restores_full_fails_solver  "Unstable system" from the first solve leaves the probed values
+    batt_restores          for EVERY callback script (incl. an exception at the probe or at the k-th deplete call, for
+                           every k) and EVERY solver behaviour (incl. exceptions and non-convergence): the Source's
+                           `vo, rs` after the call equal those before
+    batt_no_call_before_loop   unknown name / not a Source / raising probe: no deplete call is made at all
 
-  When F22 is repaired (`try: <loop> finally: <restore>`), change `battLife.finish` in Model/Batt.lean to restore for
-  every outcome (`⟨row0 :: r.rows, r.calls, voOrg, rsOrg, r.outcome⟩`); `batt_restores_full` is then proved by
-  `rcases C18.run_shape inp solveI with ⟨_, e, he⟩ | ⟨_, p, hp, hrun⟩` / `rw [he]` resp. `rw [hrun]` / `exact ⟨rfl, rfl⟩`,
-  and the two `_fails` theorems are deleted.
+  Regression witnesses of finding F22 (before the repair the Source was left at the 2nd deplete result 3.8 V / 0.22 Ω,
+  resp. at the probed 4 V / 0.2 Ω) are kept below as `example`s.
 -/
 import SysLoss.Props.C18
 
@@ -26,32 +23,26 @@ namespace C17
 open Batt C18
 variable {α : Type} [Field α] [LinearOrder α] [IsStrictOrderedRing α]
 
-/-- **batt_restores (partial).**  Whenever `batt_life` returns a table — i.e. neither a callback nor the solver raised —
-    the Source holds its original `vo, rs` again, whatever the callbacks answered. -/
-theorem batt_restores_partial (inp : Input α) (solveI : α → α → String → Except Err α)
-    (hok : (battLife inp solveI).outcome = .ok) :
+/-- **batt_restores.**  Whatever the callbacks and the solver do — return, raise at any call, fail to converge — the
+    Source holds its original `vo, rs` when `batt_life` is left. -/
+theorem batt_restores (inp : Input α) (solveI : α → α → String → Except Err (α × Nat)) :
     (battLife inp solveI).vo = inp.vo ∧ (battLife inp solveI).rs = inp.rs := by
   rcases run_shape inp solveI with ⟨_, e, he⟩ | ⟨_, p, hp, hrun⟩
   · rw [he]; exact ⟨rfl, rfl⟩
-  · rw [hrun, finish_outcome] at hok
-    rw [hrun]; unfold battLife.finish; rw [hok]; exact ⟨rfl, rfl⟩
+  · rw [hrun]; exact ⟨rfl, rfl⟩
 
-/-- exceptions raised before the loop (unknown name, not a Source, raising probe) leave the Source untouched -/
-theorem batt_restores_before_loop (inp : Input α) (solveI : α → α → String → Except Err α)
+/-- exceptions raised before the loop (unknown name, not a Source, raising probe): no deplete call, no row -/
+theorem batt_no_call_before_loop (inp : Input α) (solveI : α → α → String → Except Err (α × Nat))
     (h : ¬ (Accepts inp ∧ ∃ p, inp.probe = .ret p)) :
-    (battLife inp solveI).vo = inp.vo ∧ (battLife inp solveI).rs = inp.rs ∧ (battLife inp solveI).calls = [] := by
+    (battLife inp solveI).calls = [] ∧ ∃ e, (battLife inp solveI).outcome = .raised e := by
   rcases run_shape inp solveI with ⟨_, e, he⟩ | ⟨ha, p, hp, _⟩
-  · rw [he]; exact ⟨rfl, rfl, rfl⟩
+  · rw [he]; exact ⟨rfl, e, rfl⟩
   · exact absurd ⟨ha, p, hp⟩ h
 
-/-- the property's clause as stated: for every callback behaviour and every solver, including exceptions at any call,
-    the Source's `vo, rs` after `batt_life` equal those before -/
-def batt_restores_full : Prop :=
-  ∀ (inp : Input ℚ) (solveI : ℚ → ℚ → String → Except Err ℚ), (battLife inp solveI).outcome ≠ .exhausted →
-    (battLife inp solveI).vo = inp.vo ∧ (battLife inp solveI).rs = inp.rs
+/-! ### non-vacuity and regression witnesses (F22) -/
 
-/-- witness (F22): Source 5 V / 0.1 Ω; probe (1 Ah, 4 V, 0.2 Ω); deplete answers (0.9, 3.9, 0.21), (0.8, 3.8, 0.22), then
-    raises `KeyError` at its 3rd call -/
+/-- Source 5 V / 0.1 Ω; probe (1 Ah, 4 V, 0.2 Ω); deplete answers (0.9, 3.9, 0.21), (0.8, 3.8, 0.22), then raises
+    `KeyError` at its 3rd call -/
 def raisingInput : Input ℚ where
   reg := ⟨[("B", .source), ("L", .iload)], [("B", ""), ("L", "")]⟩
   battery := "B"
@@ -62,29 +53,26 @@ def raisingInput : Input ℚ where
   probe := .ret ⟨1, 4, 1 / 5⟩
   deplete := [.ret ⟨9 / 10, 39 / 10, 21 / 100⟩, .ret ⟨8 / 10, 38 / 10, 22 / 100⟩, .raise (.key "boom")]
 
-theorem batt_restores_full_fails : ¬ batt_restores_full := by
-  intro h
-  have h1 := h raisingInput (fun _ _ _ => .ok (1 / 2)) (by decide +kernel)
-  have h2 : (battLife raisingInput (fun _ _ _ => .ok (1 / 2))).vo = 38 / 10 := by decide +kernel
-  rw [h2] at h1
-  exact absurd h1.1 (by decide +kernel)
-
-/-- the same for a solver exception ("Unstable system" in the first iteration): the probed values stay in the Source -/
-theorem batt_restores_full_fails_solver :
-    (battLife raisingInput (fun _ _ _ => .error (.unstable "L"))).vo = 4 ∧
-    (battLife raisingInput (fun _ _ _ => .error (.unstable "L"))).outcome = .raised (.unstable "L") := by
-  decide +kernel
-
-/-! ### non-vacuity -/
-
-example : (battLife C18.demoInput C18.demoSolve).vo = 5 ∧ (battLife C18.demoInput C18.demoSolve).rs = 1 / 10 :=
-  batt_restores_partial C18.demoInput C18.demoSolve (by decide +kernel)
-/-- the raising run really is a run of the loop: three deplete calls were made -/
-example : (battLife raisingInput (fun _ _ _ => .ok (1 / 2))).calls.length = 3 := by decide +kernel
-example : (battLife raisingInput (fun _ _ _ => .ok (1 / 2))).outcome = .raised (.key "boom") := by decide +kernel
-/-- a raising probe -/
-example : (battLife { raisingInput with probe := .raise (.key "x") } (fun _ _ _ => .ok (1 / 2))).vo = 5 :=
-  (batt_restores_before_loop _ _ (by rintro ⟨_, p, hp⟩; cases hp)).1
+/-- the raising run really is a run of the loop: three deplete calls were made, the third raised -/
+example : (battLife raisingInput (fun _ _ _ => .ok (1 / 2, 5))).calls.length = 3 ∧
+    (battLife raisingInput (fun _ _ _ => .ok (1 / 2, 5))).outcome = .raised (.key "boom") := by decide +kernel
+/-- … and the Source is back at 5 V / 0.1 Ω (was 3.8 V / 0.22 Ω before the repair) -/
+example : (battLife raisingInput (fun _ _ _ => .ok (1 / 2, 5))).vo = 5 ∧
+    (battLife raisingInput (fun _ _ _ => .ok (1 / 2, 5))).rs = 1 / 10 := batt_restores _ _
+example : (battLife raisingInput (fun _ _ _ => .ok (1 / 2, 5))).vo = 5 := by decide +kernel
+/-- a solver exception ("Unstable system") in the first iteration (the probed 4 V / 0.2 Ω stayed before the repair) -/
+example : (battLife raisingInput (fun _ _ _ => .error (.unstable "L"))).outcome = .raised (.unstable "L") ∧
+    (battLife raisingInput (fun _ _ _ => .error (.unstable "L"))).vo = 5 := by decide +kernel
+/-- non-convergence -/
+example : (battLife raisingInput (fun _ _ _ => .ok (1 / 2, 10001))).outcome =
+    .raised (.runtime "Steady-state not achieved") ∧
+    (battLife raisingInput (fun _ _ _ => .ok (1 / 2, 10001))).vo = 5 := by decide +kernel
+/-- a returning run -/
+example : (battLife C18.demoInput C18.demoSolve).outcome = .ok ∧ (battLife C18.demoInput C18.demoSolve).vo = 5 ∧
+    (battLife C18.demoInput C18.demoSolve).rs = 1 / 10 := by decide +kernel
+/-- a raising probe: nothing is called -/
+example : (battLife { raisingInput with probe := .raise (.key "x") } (fun _ _ _ => .ok (1 / 2, 5))).calls = [] :=
+  (batt_no_call_before_loop _ _ (by rintro ⟨_, p, hp⟩; cases hp)).1
 
 end C17
 end SysLoss
